@@ -119,6 +119,9 @@ fn run_case<const P: usize>(sh: &mut Shard, case: u64, rng: &mut Rng) {
         if sm_adjacent_to_non_neighbour(d) {
             sh.count("device.sm-adjacent-to-non-neighbour");
         }
+        if d.sii_untyped_sms {
+            sh.count("device.sii-sync-manager-types-unknown");
+        }
     }
     let exp_in: Vec<usize> = descs.iter().map(|d| d.input_bytes()).collect();
     let exp_out: Vec<usize> = descs.iter().map(|d| d.output_bytes()).collect();
@@ -314,6 +317,10 @@ fn run_case<const P: usize>(sh: &mut Shard, case: u64, rng: &mut Rng) {
         let need: usize = (0..n).filter(|i| i % k == gi).map(|i| exp_in[i] + exp_out[i]).sum();
         let live = all_obs.iter().any(|o| o.first().is_some_and(|d| d.group == gi));
         let has_members = (0..n).any(|i| i % k == gi);
+        let need_in: usize = (0..n).filter(|i| i % k == gi).map(|i| exp_in[i]).sum();
+        if need > P && need_in <= P {
+            sh.count("group.does-not-fit-only-once-outputs-are-counted");
+        }
         if need > P && live {
             problems.push(format!("oversize-layout-accepted:group {gi} needs {need} bytes, capacity {P}"));
         }
